@@ -490,6 +490,9 @@ class Canon:
             return self._call(t)
         if op in ("tuple", "list"):
             return mk(op, tuple(self.canon(x) for x in a[0]))
+        if op == "listappend":
+            # xs.append(v) leaves xs + [v]
+            return mk("fn", "seqcat", self.canon(a[0]), mk("list", (self.canon(a[1]),)))
         if op == "set":
             return mk(op, tuple(sorted({self.canon(x) for x in a[0]}, key=lambda z: z.uid)))
         if op == "dict":
